@@ -140,6 +140,8 @@ func (c *cacheRig) run(r Run) procResult {
 		path = c.e.noPath
 	case "fail":
 		p.FailAfter = j
+	case "sigfail":
+		p.FailAfter, p.Signal = j, true
 	case "kill":
 		p.Sync, p.PassUntil, killAt = true, j, j
 	}
@@ -192,6 +194,9 @@ func genHistory(r *rand.Rand) History {
 		case 0:
 			return "missing"
 		case 1, 2:
+			if r.Intn(3) == 0 {
+				return fmt.Sprintf("sigfail:%d", r.Intn(cacheChunks+1))
+			}
 			return fmt.Sprintf("fail:%d", r.Intn(cacheChunks+1))
 		case 3:
 			return "ok"
@@ -215,7 +220,7 @@ func genHistory(r *rand.Rand) History {
 }
 
 func runCache(e *env, replayCases []string) error {
-	e.sum.Rule = "histories of the built seccomp-profiler over one private cache directory: faulty runs (disassembler missing, exiting non-zero after j of 6 chunks, profiler SIGKILLed at chunk boundary j, write(2) to the temporary file failing with EFBIG after q/12 of the bytes — for the small variant, whose whole cache file fits into bufio's 4 KB buffer, that write is the final Flush —, binary rebuilt in between; plus direct calls of doObjdump with hashes sharing 32/63/0 leading characters and with the empty hash) followed by normal runs; every run's exit status, final cache path (absent / complete for variant v / other) and log line (hit / written) are compared with CacheSpec.doObjdump, and every normal run's stdout with the cold-cache output; systematic part: every boundary j for kill and fail; a history is non-trivial if it contains a faulty run; distinct by history"
+	e.sum.Rule = "histories of the built seccomp-profiler over one private cache directory: faulty runs (disassembler missing, exiting non-zero after j of 6 chunks, dying from SIGKILL after j chunks, profiler SIGKILLed at chunk boundary j, write(2) to the temporary file failing with EFBIG after q/12 of the bytes — for the small variant, whose whole cache file fits into bufio's 4 KB buffer, that write is the final Flush —, binary rebuilt in between; plus direct calls of doObjdump with hashes sharing 32/63/0 leading characters and with the empty hash) followed by normal runs; every run's exit status, final cache path (absent / complete for variant v / other) and log line (hit / written) are compared with CacheSpec.doObjdump, and every normal run's stdout with the cold-cache output; systematic part: every boundary j for kill and fail; a history is non-trivial if it contains a faulty run; distinct by history"
 	rng := rand.New(rand.NewSource(*seed))
 	c, err := newCacheRig(e, rng)
 	if err != nil {
@@ -237,6 +242,7 @@ func runCache(e *env, replayCases []string) error {
 		for j := 0; j <= cacheChunks; j++ {
 			hs = append(hs, History{Runs: []Run{{Variant: 0, Sched: fmt.Sprintf("kill:%d", j)}, {Variant: 0, Sched: "ok"}}})
 			hs = append(hs, History{Runs: []Run{{Variant: 0, Sched: fmt.Sprintf("fail:%d", j)}, {Variant: 0, Sched: "ok"}}})
+			hs = append(hs, History{Runs: []Run{{Variant: 0, Sched: fmt.Sprintf("sigfail:%d", j)}, {Variant: 0, Sched: "ok"}}})
 		}
 		for _, q := range []int{0, 1, 4, 8, 11, 12} {
 			hs = append(hs, History{Runs: []Run{{Variant: 0, Sched: fmt.Sprintf("fsize:%d", q)}, {Variant: 0, Sched: "ok"}}})
@@ -260,7 +266,8 @@ func runCache(e *env, replayCases []string) error {
 		req := fmt.Sprintf("CACHE %d", len(h.Runs))
 		nontrivial := false
 		for _, r := range h.Runs {
-			req += fmt.Sprintf(" %d %s", r.Variant, r.Sched)
+			// for the specification a tool that dies from a signal is a tool that failed after the same prefix
+			req += fmt.Sprintf(" %d %s", r.Variant, strings.Replace(r.Sched, "sigfail:", "fail:", 1))
 			kind, _ := parseSched(r.Sched)
 			e.tag("sched:" + kind)
 			if r.Sched != "ok" {
